@@ -278,7 +278,12 @@ def errors_ok(resp, ref):
     for e in errs:
         if e not in ref.errors:
             return False
-    for _, causes in ref.nulled:
+    nulled_positions = [q for q, _ in ref.nulled]
+    for q, causes in ref.nulled:
+        # a position swallowed by a null that propagated further up is not part of `data` any more: only the positions that are
+        # visible as null in the final data must be explained (the engine may abandon the siblings of a propagating failure)
+        if any(len(p) < len(q) and tuple(q[:len(p)]) == tuple(p) for p in nulled_positions):
+            continue
         if not any(c in errs for c in causes):
             return False
     return True
